@@ -1,6 +1,6 @@
 """Generated layer for C19, second part: the literals and helper-function shapes of the conditional-verbose rule of
-src/linters/print_statements (logger calls guarded by `if verbose:`); items for the regex-in-loop analyzer of
-src/linters/performance are prepared but not generated yet (see NOT_YET_USED).
+src/linters/print_statements (logger calls guarded by `if verbose:`) and of the regex-in-loop analyzer of
+src/linters/performance.
 
 As in items_embed.py every modelled function is matched, docstring stripped, against a template of its whole body in
 which only literals are holes; a changed operator, a dropped branch or a reordered test makes the item fail closed."""
@@ -20,6 +20,8 @@ RX = F + "regex_analyzer.py"
 FINGERPRINTS = [
     (CV, ["is_verbose_condition", "is_logger_call", "ConditionalVerboseAnalyzer"]),
     (P + "conditional_verbose_rule.py", ["ConditionalVerboseRule"]),
+    (RX, ["PythonRegexInLoopAnalyzer"]),
+    (F + "regex_linter.py", ["RegexInLoopRule"]),
 ]
 
 
@@ -323,7 +325,7 @@ ITEMS = [
     ("cv_walk", cv_walk),
     ("cv_rule", cv_rule),
     ("cv_doc_names", cv_doc_names),
+    ("rx_globals", rx_globals),
+    ("rx_walk", rx_walk),
+    ("rx_rule", rx_rule),
 ]
-# rx_globals / rx_walk / rx_rule (regex-in-loop) are written and match the current source, but no Gallina model consumes them
-# yet (Model/RegexLoop.v is the next step): they are not generated, so that Gen holds only what theorems depend on.
-NOT_YET_USED = [("rx_globals", rx_globals), ("rx_walk", rx_walk), ("rx_rule", rx_rule)]
